@@ -5,6 +5,8 @@
 //! Field cases (f_ser_flags, f_ser_plain, f_de_flags, f_de_plain):
 //!   a[0] = [cfg_id, N, flag_type, flag_code | compress, validate]
 //!   a[1] = [p]   a[2] = [tower]   a[3] = coordinates | bytes
+//!   every op that serialises returns BOTH the bytes written and the size advertised by `serialized_size*`
+//!   (f_ser_*: [bytes, size]; f_de_*: [.., consumed, re-encoding, size of the decoded value]; sw_ser/te_ser: [bytes, size])
 //! Point cases (sw_ser, sw_de, te_ser, te_de):
 //!   a[0] = [curve_id, N, compress, validate, projective]
 //!   a[1] = [p, deg]  a[2] = [nr]  a[3] = COEFF_A  a[4] = COEFF_B|COEFF_D  a[5] = [r]  a[6..] operands
